@@ -48,7 +48,18 @@ func rdata(rng *rand.Rand) []byte {
 	if rdataSize >= 0 {
 		return randBytes(rng, rdataSize)
 	}
-	return randBytes(rng, pick(rng, 0, 1, 2, 6, 16, rng.Intn(40)))
+	b := randBytes(rng, pick(rng, 0, 1, 2, 6, 16, rng.Intn(40)))
+	switch rng.Intn(12) { // values that end (or begin) with what a string routine would trim
+	case 0:
+		b = append(b, 0)
+	case 1:
+		b = append(b, 0, 0)
+	case 2:
+		b = append(b, ' ')
+	case 3:
+		b = append([]byte{0}, b...)
+	}
+	return b
 }
 // rhwtype: hardware types from the IANA registry (Ethernet, IEEE 802, EUI-64, InfiniBand, ...) and beyond it
 func rhwtype(rng *rand.Rand) iana.HWType {
@@ -689,6 +700,40 @@ func genC05(o *Out, rng *rand.Rand, tier string) {
 				}
 			}
 		}
+	}
+	// (b3) number spaces of their own: the sub-options of vendor options (17) and of the NTP option (56) are not
+	// DHCPv6 options, whatever their numbers; every known option code as a sub-option code, with a payload that is a
+	// valid encoding of that option and with one that is not
+	for _, c := range append(append([]int{}, v6Known...), 7, 14) {
+		for k := 0; k < 3; k++ {
+			var pay []byte
+			switch k {
+			case 0:
+				pay = randOpt6(rng, c, 1).ToBytes()
+			case 1:
+				pay = randBytes(rng, 1+rng.Intn(7))
+			default:
+				pay = []byte{0, 23, 0, 23, 0, 24, 0, 23} // reads as a request list with a repeated code
+			}
+			if len(pay) > 200 {
+				continue
+			}
+			sub := append([]byte{byte(c >> 8), byte(c), byte(len(pay) >> 8), byte(len(pay))}, pay...)
+			v := append([]byte{0, 0, 0, 9}, sub...)
+			emit(append([]byte{7, 1, 2, 3, 0, 17, byte(len(v) >> 8), byte(len(v))}, v...), "sub-option-number-spaces")
+			if c > 3 { // 1..3 are the NTP sub-options proper
+				emit(append([]byte{7, 1, 2, 3, 0, 56, byte(len(sub) >> 8), byte(len(sub))}, sub...), "sub-option-number-spaces")
+			}
+		}
+	}
+	// (b4) embedded DHCPv4 packets (option 87) as they come off the wire: name fields with bytes after the first NUL or
+	// without any NUL, any hlen, unsorted / repeated / padded options
+	for k := 0; k < nvalid; k++ {
+		w4, _ := wirePacket4(rng)
+		if len(w4) > 1200 {
+			continue
+		}
+		emit(append([]byte{21, 1, 2, 3, 0, 87, byte(len(w4) >> 8), byte(len(w4))}, w4...), "embedded-v4-wire")
 	}
 	// (c) every truncation and length-field perturbation of valid messages holding every option type
 	for i := 0; i < nvalid; i++ {
